@@ -113,6 +113,7 @@ type scenario struct {
 	cpc      *simnet.SimConn
 	conns    []*quic.Conn
 	seen     map[int]map[string]bool // per conn: parts already processed
+	buffered map[int][]partSum       // per conn: parts queued as undecryptable, in order
 	genuine  [][]byte                // genuine s2c datagrams handed over so far (as sent by the server)
 	nGenuine int
 	trace    []*delivery
@@ -465,8 +466,25 @@ func (sc *scenario) attribute(d *delivery, evs []qlogwriter.Event) {
 		if react == "recv" {
 			seen[string(p.raw)] = true
 		}
+		if react == "buf" {
+			sc.buffered[d.conn] = append(sc.buffered[d.conn], *p)
+		}
 		last = j
 		j++
+	}
+	// a queued packet that is processed later (once its keys arrived) shows up as an event of another datagram
+	later := func(pt qlog.PacketType, received bool) {
+		kind := map[qlog.PacketType]string{qlog.PacketTypeInitial: "initial", qlog.PacketTypeHandshake: "handshake", qlog.PacketType1RTT: "short", qlog.PacketType0RTT: "0rtt"}[pt]
+		q := sc.buffered[d.conn]
+		for i := range q {
+			if q[i].kind == kind {
+				if received {
+					seen[string(q[i].raw)] = true
+				}
+				sc.buffered[d.conn] = append(append([]partSum(nil), q[:i]...), q[i+1:]...)
+				return
+			}
+		}
 	}
 	for _, ev := range evs {
 		switch e := ev.(type) {
@@ -478,6 +496,7 @@ func (sc *scenario) attribute(d *delivery, evs []qlogwriter.Event) {
 				assign("recv")
 			default:
 				d.extra = append(d.extra, evTxt(ev))
+				later(e.Header.PacketType, true)
 			}
 		case qlog.PacketDropped:
 			switch {
@@ -487,6 +506,9 @@ func (sc *scenario) attribute(d *delivery, evs []qlogwriter.Event) {
 				assign("drop:" + string(e.Trigger))
 			default:
 				d.extra = append(d.extra, evTxt(ev))
+				if e.Header.PacketType != "" {
+					later(e.Header.PacketType, false)
+				}
 			}
 		case qlog.PacketBuffered:
 			if (longFirst && e.DatagramID == id) || (!longFirst && e.Header.PacketType == qlog.PacketType1RTT && e.DatagramID == 0) {
@@ -572,7 +594,19 @@ func (sc *scenario) craft(in *injSpec) (data, orig []byte, intact bool) {
 	}
 	switch in.kind {
 	case "retry":
-		return craftRetry(k, r, g("tag", "valid"), g("scid", "new"), g("ver", "cur")), nil, false
+		var token []byte
+		if g("tok", "rand") == "stolen" {
+			sc.nw.mu.Lock()
+			for _, d := range sc.nw.s2c {
+				if len(d) > 0 && wire.IsLongHeaderPacket(d[0]) && !wire.IsVersionNegotiationPacket(d) {
+					if hdr, _, _, err := wire.ParsePacket(d); err == nil && hdr.Type == protocol.PacketTypeRetry {
+						token = hdr.Token
+					}
+				}
+			}
+			sc.nw.mu.Unlock()
+		}
+		return craftRetry(k, r, g("tag", "valid"), g("scid", "new"), g("ver", "cur"), token), nil, false
 	case "vn":
 		return craftVN(k, r, g("list", "cur")), nil, false
 	case "initial":
@@ -892,6 +926,7 @@ func (sc *scenario) run() (out *outcome) {
 	sc.nw = newGnet(oneWay, sc.faults)
 	sc.rec = &recorder{}
 	sc.seen = map[int]map[string]bool{}
+	sc.buffered = map[int][]partSum{}
 	sc.done = make(chan struct{})
 	sc.tracing = true
 	sim := &simnet.Simnet{Router: sc.nw}
